@@ -23,7 +23,7 @@ def confirm(wt, n, sid):
     shutil.copy(os.path.join(wt, "deliver", f"patch{n}.diff"), os.path.join(d, "patch.diff"))
     shutil.copy(os.path.join(wt, "deliver", f"demo{n}.rs"), os.path.join(d, "demo.rs"))
     meta = json.load(open(os.path.join(wt, "deliver", f"meta{n}.json")))
-    sh("git checkout -- . && rm -f tests/demo_*.rs tests/seeded_demo.rs", cwd=wt)
+    sh("git checkout -- . && rm -f tests/demo_*.rs tests/demo.rs tests/seeded_demo.rs", cwd=wt)
     ran = []
     # (a) with the patch
     c, o = sh(f"git apply {d}/patch.diff", cwd=wt); assert c == 0, o
